@@ -9,7 +9,7 @@ use serde_json::json;
 pub fn cfg_for(prop: &str, thorough: bool) -> Config {
 	let steps = if thorough { 400 } else { 160 };
 	match prop {
-		"C03" => Config { steps, allow_cancel_after_post: false, allow_minconf0: false, duplicates: true, outages: false, restarts: true, secrets_every: 0, max_in_flight: 4, invoices: true, late_lock: true, self_send: true, hostile_invoice: false, burst: false, stale_coinbase: false, self_invoice: false, third_account: false },
+		"C03" => Config { steps, allow_cancel_after_post: false, allow_minconf0: false, duplicates: true, outages: false, restarts: true, secrets_every: 0, max_in_flight: 4, invoices: true, late_lock: true, self_send: true, hostile_invoice: false, burst: false, stale_coinbase: false, self_invoice: true, third_account: false },
 		"C04" => Config { steps, allow_cancel_after_post: false, allow_minconf0: true, duplicates: false, outages: true, restarts: true, secrets_every: 0, max_in_flight: 3, invoices: true, late_lock: true, self_send: true, hostile_invoice: false, burst: true, stale_coinbase: true, self_invoice: true, third_account: false },
 		"C15" => Config { steps, allow_cancel_after_post: true, allow_minconf0: true, duplicates: true, outages: true, restarts: true, secrets_every: 0, max_in_flight: 4, invoices: true, late_lock: true, self_send: true, hostile_invoice: false, burst: false, stale_coinbase: true, self_invoice: false, third_account: false },
 		// (duplicates: a protocol step repeated with the same slate emits a second message for the same transaction)
